@@ -106,12 +106,22 @@ func (x *Exec) dryRun(s *State, run func(d *State) *State) (map[string]bool, map
 	x.eng.recording = true
 	savedTargets := x.targets
 	savedRets := x.rets
+	// recording runs must not leak states into enclosing break/continue targets
+	type tsave struct{ b, c int }
+	lens := make([]tsave, len(savedTargets))
+	for i, tg := range savedTargets {
+		lens[i] = tsave{len(tg.breaks), len(tg.conts)}
+	}
 	var back *State
 	func() {
 		defer func() {
 			x.eng.recording = wasRec
 			x.targets = savedTargets
 			x.rets = savedRets
+			for i, tg := range savedTargets {
+				tg.breaks = tg.breaks[:lens[i].b]
+				tg.conts = tg.conts[:lens[i].c]
+			}
 		}()
 		back = run(d)
 	}()
@@ -160,12 +170,22 @@ func (x *Exec) loopFrame(s *State, lh *loopHavoc, run func(d *State) *State) {
 	x.eng.recording = true
 	savedTargets := x.targets
 	savedRets := x.rets
+	// recording runs must not leak states into enclosing break/continue targets
+	type tsave struct{ b, c int }
+	lens := make([]tsave, len(savedTargets))
+	for i, tg := range savedTargets {
+		lens[i] = tsave{len(tg.breaks), len(tg.conts)}
+	}
 	var back *State
 	func() {
 		defer func() {
 			x.eng.recording = wasRec
 			x.targets = savedTargets
 			x.rets = savedRets
+			for i, tg := range savedTargets {
+				tg.breaks = tg.breaks[:lens[i].b]
+				tg.conts = tg.conts[:lens[i].c]
+			}
 		}()
 		back = run(d)
 	}()
